@@ -4,7 +4,9 @@ Full statement: `C01_full`.  Proved so far: the run right is handed out only fro
 (table obligations) — the inductive step `Exclusive` over all model steps is in Inv/.
 -/
 import DesyncModel.Spec
-import DesyncModel.Tables
+import DesyncModel.Tables.Sync
+import DesyncModel.Tables.TrySync
+import DesyncModel.Tables.Claim
 import DesyncModel.FactFifo
 import DesyncModel.FactSyncFuture
 import DesyncModel.Inv.Holder
